@@ -123,6 +123,10 @@ func c14Sites(f *SFile) []c14Site {
 	return out
 }
 
+var c14Contexts = []string{"print(%s)", "print(%s)", "print(%s)", "local zq = \"id:\"..%s", "local zq = \"id:\" .. %s", "local zq = zq0 ..%s", "local zq = zq0..%s",
+	"local zq = {%s}", "local zq = { k = %s }", "local zq = -%s", "local zq = not %s", "local zq = 1+%s", "local zq = 1 + %s", "local zq = (%s)", "zq0(1,%s)", "zq0(1, %s)",
+	"local zq = zq0[%s]", "if %s then end", "local zq = #%s", "local zq = 1<%s", "local zq = zq0 and %s", "zq0 = %s", "local zq = zq0(%s)"}
+
 func runC14(c *Ctx) {
 	nWS := c.N(600, 8000)
 	probesPerFile := c.N(14, 30)
@@ -179,10 +183,14 @@ func runC14(c *Ctx) {
 				}
 				k := r.Range(2, len(target)-1) // a strict prefix: the probe word itself is a name use and gets offered back
 				prefix := target[:k]
-				probe := "print(" + prefix + ")"
+				// the expression context the prefix is typed in: call argument, operand glued to or spaced from an operator,
+				// table constructor, index, condition
+				ctx := c14Contexts[r.Intn(len(c14Contexts))]
+				at := strings.Index(ctx, "%s")
+				probe := ctx[:at] + prefix + ctx[at+2:]
 				var newText string
 				var cursor int
-				cursor = st.Off + len("print(") + len(prefix)
+				cursor = st.Off + at + len(prefix)
 				if st.After {
 					newText = f.Text[:st.Off] + " " + probe + f.Text[st.Off:]
 					cursor++
@@ -208,7 +216,10 @@ func runC14(c *Ctx) {
 					if d.Tok == nil || !strings.HasPrefix(d.Name, prefix) {
 						continue
 					}
-					visible := d.VisFrom <= cursor && cursor < d.VisTo
+					// visibility is judged where the prefix starts: the cursor itself sits at the end of that token, which can be
+					// the very end of the enclosing block's last statement
+					at0 := cursor - len(prefix)
+					visible := d.VisFrom <= at0 && at0 < d.VisTo
 					inOwnStatement := d.Stat != nil && d.Stat.K == SLocal && d.Stat.First.Off <= cursor && cursor <= d.Stat.Last.End
 					switch {
 					case inOwnStatement:
@@ -257,7 +268,8 @@ func runC14(c *Ctx) {
 				c.Count("completion_requests", 1)
 				labels := map[string]bool{}
 				for _, it := range items {
-					labels[it.Label] = true
+					// after the length operator the tool offers the names with the `#` glued on (`#name`), by design
+					labels[strings.TrimPrefix(it.Label, "#")] = true
 				}
 				c.Distinct(newText + fmt.Sprint(cursor))
 				// syntactic context of the probe (for signatures): class of the prefix identifier as an occurrence
@@ -291,7 +303,7 @@ func runC14(c *Ctx) {
 					if labels[n] {
 						why := "declared-later"
 						for _, d := range br.Decls {
-							if d.Name == n && d.VisFrom <= cursor {
+							if d.Name == n && d.VisFrom <= cursor-len(prefix) {
 								why = "block-not-enclosing-cursor"
 							}
 						}
@@ -308,7 +320,7 @@ func runC14(c *Ctx) {
 			c.Sample(map[string]interface{}{"files": sw.FileMap()})
 		}
 	})
-	c.Finish("generated programs with workspace-unique names; probe lines `print(<prefix>)` are inserted (as an unsaved edit of the open, still valid document) at statement "+
+	c.Finish("generated programs with workspace-unique names; probe statements containing `<prefix>` in one of 20 expression contexts (call argument, operand glued to or spaced from `..`, `+`, `<`, unary operators, table constructor, index, condition, assignment) are inserted (as an unsaved edit of the open, still valid document) at statement "+
 		"boundaries of every block: first statement, right after a declaration, last statement, on the line of `end`, inside nested functions and blocks, end of file; "+
 		"completion (triggerKind 1) right after the prefix must offer every local/parameter/loop variable visible there per R-bind and every workspace global with that prefix, "+
 		"and no local that is declared later or in a block not enclosing the cursor. distinct_nontrivial = distinct (document text, cursor) probed", 200)
